@@ -557,6 +557,14 @@ class RoiSubsetStateNd(SubsetState):
     def attributes(self):
         return tuple(self._atts)
 
+    def _set_att(self, index, value):
+        # The list of attributes is modified in-place, so if this replaces an
+        # attribute, cached masks (also of states that contain this one) are
+        # out of date
+        if self._atts[index] is not None and self._atts[index] is not value:
+            clear_all_caches()
+        self._atts[index] = value
+
     def center(self):
         return self._roi.center()
 
@@ -673,7 +681,7 @@ class RoiSubsetState(RoiSubsetStateNd):
 
     @xatt.setter
     def xatt(self, value):
-        self._atts[0] = value
+        self._set_att(0, value)
 
     @property
     def yatt(self):
@@ -684,7 +692,7 @@ class RoiSubsetState(RoiSubsetStateNd):
 
     @yatt.setter
     def yatt(self, value):
-        self._atts[1] = value
+        self._set_att(1, value)
 
     def copy(self):
         result = RoiSubsetState()
@@ -1909,7 +1917,7 @@ class RoiSubsetState3d(RoiSubsetStateNd):
 
     @xatt.setter
     def xatt(self, value):
-        self._atts[0] = value
+        self._set_att(0, value)
 
     @property
     def yatt(self):
@@ -1920,7 +1928,7 @@ class RoiSubsetState3d(RoiSubsetStateNd):
 
     @yatt.setter
     def yatt(self, value):
-        self._atts[1] = value
+        self._set_att(1, value)
 
     @property
     def zatt(self):
@@ -1931,7 +1939,7 @@ class RoiSubsetState3d(RoiSubsetStateNd):
 
     @zatt.setter
     def zatt(self, value):
-        self._atts[2] = value
+        self._set_att(2, value)
 
     def copy(self):
         result = RoiSubsetState3d()
